@@ -205,6 +205,8 @@ def inverse1d(ctx, rng, idx):
     name = ["insub", "insub_cbc", "insup", "outsub", "outsub_qtot", "outsub_nrcbc", "outsub_rh", "outsup", "sym", "outsub_prim"][idx % 10]
     n = 64
     rb, mb, pb = _states(rng, n, gam)
+    if name in ("insub", "insub_cbc", "outsub_qtot", "outsub", "outsub_prim", "sym") and rng.random() < 0.25:
+        mb = mb * 10 ** rng.uniform(-6, -1, n)          # slow flows too (Mach 1e-8...1e-1): creeping inlets and outlets
     cb = np.sqrt(gam * pb / rb)
     j = int(rng.integers(n))
     # boundary state (index j is the reference from which scalar parameters are taken)
@@ -290,11 +292,13 @@ def inverse1d(ctx, rng, idx):
         if not np.any(ok):
             continue
         s = np.maximum(np.abs(sc[i]), np.abs(e))[ok] if i != 1 else (np.abs(sc[1]) + np.abs(e))[ok]
-        cond = 1.0
+        extra = 0.0
         if name in ("insub", "insub_cbc", "insup", "outsub_qtot") and i == 1:
+            # total-pressure -> Mach number inversion: M^2 is recovered to round-off, the velocity (measured against |u|+c) to eps/M.
+            # ADDED to the tolerance, not divided out of the error: dividing would hide a boundary state that carries no velocity at all
             mb_ = np.abs(np.asarray(exp[1], float)) / np.sqrt(gam * np.abs(np.asarray(exp[2], float) / np.asarray(exp[0], float)))
-            cond = 1.0 + 1.0 / np.maximum(mb_[ok], 1e-2) ** 2          # total-pressure -> Mach number inversion loses 1/M^2
-        err = np.abs(np.broadcast_to(_arr(got[i]), e.shape)[ok] - e[ok]) / s / cond
+            extra = 1e3 * np.finfo(float).eps / np.maximum(mb_[ok], 1e-12)
+        err = np.abs(np.broadcast_to(_arr(got[i]), e.shape)[ok] - e[ok]) / s - extra
         ctx.close("inverse:1d", np.max(err), 1e-9, "inverse1d/%s/%s-not-the-constructed-state" % (name, nm), {"dir": d, "gamma": gam}, cls="inverse:1d")
     ctx.nontrivial("inv1d", name, d, gam, ri[:3], ui[:3])
 
